@@ -10,7 +10,7 @@ E2 = "chx"
 CHECKS = {
     "C01": dict(engine=E1, cat="translation_validation", sec="6 C01",
                 technique="symbolic execution of the clang-lowered generated Fex (LLVM IR -> z3 reals) + SMT equivalence with the mass-action law; sat answers replayed on the natively compiled emitted code",
-                text="For every corpus network and each of the four back-ends the compiled generated right-hand side is executed symbolically and z3 shows 'exists y,k,params: ydot[i] != mass-action reference' unsat for every slot (and the thermal row). All abundance vectors / rate values are covered by the solver; the network dimension is bounded by the enumerated corpus. The CUDA kernel is additionally run by one thread over two systems: the second system obeys the law with its own abundances, parameters and helper values.",
+                text="For every corpus network and each of the four back-ends the compiled generated right-hand side is executed symbolically and z3 shows 'exists y,k,params: ydot[i] != mass-action reference' unsat for every slot (and the thermal row). All abundance vectors / rate values are covered by the solver; the network dimension is bounded by the enumerated corpus. The CUDA kernel is additionally run by one thread over two systems: the second system obeys the law with its own abundances, parameters and helper values. For thermal networks the emitted particle-density helper is the sum of the species abundances; networks rendered, edited and rendered again in one process are decided on the second set of sources.",
                 note="Trusted: clang++-14 lowering against declaration-only shims, the IR interpreter (cross-checked against g++ builds at random points every run), z3. Real arithmetic (no IEEE rounding). Networks outside the corpus are outside the claim."),
     "C02": dict(engine=E1, cat="translation_validation", sec="6 C02",
                 technique="dual-number symbolic execution of the compiled Fex gives d(ydot_i)/d(y_j) as z3 terms; SMT equivalence with every entry the compiled Jac stores (absent entries = 0); native 5-point-stencil replay",
@@ -38,7 +38,7 @@ CHECKS = {
                 note="Selector enumeration (29 conditions x 512 selections), not symbolic strings; the encoders are the format definitions."),
     "C08": dict(engine=E2, cat="exploration", sec="6 C08",
                 technique="CrossHair (z3) drives symbolic selectors over compositions; each selected composition is spelled as a name, parsed by the real Species (untraced) and compared field by field with the composition it was built from; all paths of every condition exhausted",
-                text="All ordered pairs and triples of clash-prone symbols (H/He, C/Cl/Ca, S/Si, N/Na/Ni, F/Fe...), every default element with counts and 6 charge states, surface prefixes '#'/'G', ortho/para labels, the UCLCHEM upper-case list with replacement (renamed names), electrons, grains (default and custom symbols with group numbers in every charge state), H2*, c-/l- isomers, surface prefixes followed by a grain-population number, pseudo elements promoted to elements with add_known_elements: element counts, charge, phase, gas counterpart, mass number and is_atom are exactly those of the composition; names with foreign characters are rejected.",
+                text="All ordered pairs and triples of clash-prone symbols (H/He, C/Cl/Ca, S/Si, N/Na/Ni, F/Fe...), every default element with counts and 6 charge states, surface prefixes '#'/'G', ortho/para labels, the UCLCHEM upper-case list with replacement (renamed names), electrons, grains (default and custom symbols with group numbers in every charge state), H2*, c-/l- isomers, surface prefixes followed by a grain-population number, pseudo elements promoted to elements with add_known_elements, anions under the replacement table: element counts, charge, phase, gas counterpart, mass number and is_atom are exactly those of the composition; names with foreign characters are rejected.",
                 note="Selector enumeration by the solver, not symbolic strings (CrossHair's regex model is unreliable on this tokenizer; stated in DESIGN.md). Mass numbers from an independent table."),
     "C09": dict(engine=E2, cat="exploration", sec="6 C09",
                 technique="CrossHair-selected name pairs on the real Species.__eq__/__hash__/alias + per-project z3 Distinct/range queries over the index tables read back from every generated artefact (macros through the real preprocessor, Python constants via ast, TOML summary, Enzo patch header)",
@@ -54,7 +54,7 @@ CHECKS = {
                 note="Bounded list lengths and pools; CrossHair's own soundness; string modes compare printed names by documentation."),
     "C16": dict(engine=E1, cat="translation_validation", sec="6 C16",
                 technique="symbolic execution of the compiled InitRenorm / RenormAbundance / GetElementAbund / GetHNuclei + SMT (non-linear real arithmetic): with the linear solve as the constraint A(ab) r = b, element totals after renormalisation equal reference ratio x hydrogen nuclei for all ab > 0",
-                text="For networks with multi-element molecules, ions, isotopologues/ortho-para species, ice species and dust grains: z3 shows for all positive abundances and all solutions r that every element total after RenormAbundance is b_i*H, that H is preserved when b_H=1, that electrons are untouched, that GetElementAbund is the count-weighted sum, that A(ab)*1 is the current ratio vector and every factor is 1 at r = 1; at class level Naunet::Renorm (aliasing-aware stubs) solves with the stored reference as right-hand side, hands the solution to RenormAbundance and leaves the stored reference unchanged, SetReferenceAbund stores ref_i/ref_H resp. E_i/H at r=1 (identity), and that no term divides by the literal 0.0.",
+                text="For networks with multi-element molecules, ions, isotopologues/ortho-para species, ice species and dust grains: z3 shows for all positive abundances and all solutions r that every element total after RenormAbundance is b_i*H, that H is preserved when b_H=1, that electrons are untouched, that GetElementAbund is the count-weighted sum, that A(ab)*1 is the current ratio vector and every factor is 1 at r = 1; at class level Naunet::Renorm (aliasing-aware stubs) solves with the stored reference as right-hand side, hands the solution to RenormAbundance, leaves the stored reference unchanged and returns success without renormalising only where every element total already equals reference x hydrogen nuclei, SetReferenceAbund stores ref_i/ref_H resp. E_i/H at r=1 (identity), and that no term divides by the literal 0.0.",
                 note="The LU/SUNLinSol solve is modelled by its defining equation; nonsingular A assumed for uniqueness; real arithmetic; elements are the atomic species present (generator's definition)."),
     "C10": dict(engine="cfgsat", cat="other", sec="6 C10",
                 technique="real compiler front end (clang++-14 name resolution) on every emitted translation unit of a configuration matrix; thorough: z3 model of the symbol registry (read from the real component classes) solved for mixtures/orders with use-before-declaration, each SAT mixture rendered and compiled",
@@ -74,7 +74,7 @@ CHECKS = {
                 note="Modifier expressions are arithmetic over parameters; one 6-reaction KIDA network and one unindexed API network; all parameters, abundances and rate values symbolic."),
     "C20": dict(engine=E1, cat="translation_validation", sec="6 C20",
                 technique="differential symbolic execution of the project rendered by `naunet init`+`naunet render` (real CLI, real TOML) against the project rendered through Network(...) for the requested description: SMT equivalence of every rate coefficient and derivative, ground equality of macro tables and TOML fields; CrossHair symbolic execution of InitCommand.handle on symbolic option strings",
-                text="For the bundled examples (minimal, primordial, empty; deuterium and cloud in thorough) and option-value classes (blanks around separators in lists and key=value tables, extra species, modifiers, binding energies and yields, non-default symbols, self-shielding tables) the configuration file records what was requested and the command-line rendering is equivalent for all inputs to the API rendering; Network.export for dense / sparse / odeint records the requested solver selection and re-renders to the same back-end with equal right-hand sides; the command printed by `naunet example --dry` carries the example module's own tables value by value.",
+                text="For the bundled examples (minimal, primordial, empty; deuterium and cloud in thorough) and option-value classes (blanks around separators in lists and key=value tables, extra species, modifiers, binding energies and yields, non-default symbols, self-shielding tables) the configuration file records what was requested and the command-line rendering is equivalent for all inputs to the API rendering; Network.export for dense / sparse / odeint records the requested solver selection and re-renders to the same back-end with equal right-hand sides; an export over an earlier export with another selection records the later one; the command printed by `naunet example --dry` carries the example module's own tables value by value.",
                 note="End-to-end cases are enumerated option classes; the option parser itself is additionally executed by CrossHair on symbolic strings of <=4 characters; prompts are not exercised; `ism` needs an external file."),
     "C18": dict(engine=E1, cat="translation_validation", sec="6 C18",
                 technique="ground field-wise comparison of two native write/read cycles + differential symbolic execution: compiled EvalRates/Fex of the direct rendering vs. Network.export re-rendered by `naunet render` in the exported directory, SMT equivalence for all parameter values, native replay of every sat answer",
